@@ -1,6 +1,7 @@
 import collections
 from fractions import Fraction as frac
 import math
+import unicodedata
 
 import ka.config
 from .config import ConfigProperties
@@ -377,6 +378,15 @@ SPECIAL_NAMES = {
     "jpy": "yen",
 }
 
+def typable_name(name, fallback):
+    """Currency names come from a scraped table (bolívar, pa'anga, ni-vanuatu vatu).
+    A unit name has to be typable: strip accents and every character the
+    tokeniser does not accept in an identifier."""
+    decomposed = unicodedata.normalize("NFKD", name)
+    cleaned = "".join(ch for ch in decomposed
+                      if ch.isascii() and (ch.isalnum() or ch == "_"))
+    return cleaned if cleaned and cleaned[0].isalpha() else fallback
+
 if BASE_CURRENCY is not None:
     CASH = QSPACE.get_basis_vector(BASE_CURRENCY)
     base = next(c for c in CURRENCY_DATA if c.symbol == BASE_CURRENCY)
@@ -396,15 +406,16 @@ if BASE_CURRENCY is not None:
             # Corrupt entry, there is no way to convert to or from it.
             continue
         mul = base.dollar_rate/c.dollar_rate
-        if c.name in NAME_TO_UNIT and c.symbol in SYMBOL_TO_UNIT:
+        cname = typable_name(c.name, c.symbol)
+        if cname in NAME_TO_UNIT and c.symbol in SYMBOL_TO_UNIT:
             # I found that some currencies have duplicate names.
             # E.g. there are two Venezuelan currencies with the
             # same name, but different symbols. Also, some currency
             # symbols clash with existing units (Cuban peso = "cup").
             # So we try to handle that as elegantly as possible.
             continue
-        name = c.symbol if c.name in NAME_TO_UNIT else c.name
-        sym = c.name if c.symbol in SYMBOL_TO_UNIT else c.symbol
+        name = c.symbol if cname in NAME_TO_UNIT else cname
+        sym = cname if c.symbol in SYMBOL_TO_UNIT else c.symbol
         if sym in SPECIAL_NAMES:
             name = SPECIAL_NAMES[sym]
         if name in NAME_TO_UNIT or name + "s" in NAME_TO_UNIT or sym in SYMBOL_TO_UNIT:
